@@ -335,7 +335,7 @@ CONTRACTS = [
              body_collector, cases=[(s,) for s in nestings(6)]),
     Contract('dbg.asm_markers', PROPS + ['C08'], ['qbee.qvm_codegen:QvmCode.assembled'], body_asm_markers,
              cases=[(s,) for s in ('SnE', 'SE', 'SnSpEnE', 'nSlpEn', 'SBE', 'SnSBEpE', 'SSnEEp', 'lSnElSpE')]),
-    Contract('dbg.finalize', PROPS + ['C10'], ['qvm.debug_info:DebugInfo.finalize'], body_finalize,
+    Contract('dbg.finalize', PROPS + ['C10', 'C12'], ['qvm.debug_info:DebugInfo.finalize'], body_finalize,
              cases=[(n, eb, ea, o) for n in (0, 1, 2) for eb in (False, True) for ea in (False, True) for o in (False, True)]),
     Contract('codegen.marker_erasure', ['C08', 'C11'], ['qbee.codegen:BaseCodeGen.gen_code_for_node', 'qbee.codegen:BaseCodeGen.start_dbg_info',
                                                         'qbee.codegen:BaseCodeGen.end_dbg_info'],
@@ -550,4 +550,34 @@ CONTRACTS += [
              cases=[(n, b) for n in (0, 1, 2, 3) for b in (0, 1)]),
     Contract('c08.flag_readers', ['C08'], ['qbee.qvm_codegen:gen_code_for_block'], body_flag_readers,
              trusted=['syntactic scan for readers of debug_info_enabled (no solver)']),
+]
+
+
+def body_finalize_stray_marker(h):
+    """an empty block whose start offset coincides with the empty-block marker of a preceding (empty) ELSE / block:
+    the records split at the block's OWN marker must be present"""
+    bs = h.int('block.start', 0, 1 << 20)
+    be = h.int('block.end', 0, 1 << 20)
+    m = h.int('own_marker', 0, 1 << 20)
+    h.require(land(bs < m, m < be))
+    di = object.__new__(DebugInfo)
+    di.source_code = ''
+    blk = _Blk()
+    di.stmts = []
+    di.blocks = [(blk, bs, be)]
+    di.empty_blocks = [bs, m]          # the stray marker of the previous block sits exactly at this block's start
+    if h.symbolic:
+        h.set_call('qbee.utils.convert_index_to_line_col', lambda interp, f, args, kw: (1, 1))
+    out = h.call(di.finalize)
+    if not out.returned:
+        h.prove('no_exception', False, detail=repr(out))
+        return
+    st = [r for r in di.stmts if r.node is blk.start_stmt]
+    en = [r for r in di.stmts if r.node is blk.end_stmt]
+    h.prove('start_record_up_to_own_marker', lor(*[land(same(r.start_offset, bs), same(r.end_offset, m)) for r in st]) if st else False)
+    h.prove('end_record_from_own_marker', lor(*[land(same(r.start_offset, m), same(r.end_offset, be)) for r in en]) if en else False)
+
+
+CONTRACTS += [
+    Contract('dbg.finalize_stray_marker', ['C11', 'C12', 'C10'], ['qvm.debug_info:DebugInfo.finalize'], body_finalize_stray_marker),
 ]
